@@ -13,6 +13,9 @@ import Verif.C13.NoMatch
 import Verif.C13.MaskTrace
 import Verif.C13.Text
 import Verif.C13.Active
+import Verif.C13.LoaderSplice
+import Verif.C13.Engine
+import Verif.C13.Registry
 
 namespace Verif.C13
 
@@ -455,6 +458,96 @@ theorem session_default_activation (o : Link.Obj) (cs : List Link.Call) (n : Str
 
 example : (Link.Obj.after ⟨["x".toList]⟩ [.activate "y".toList, .apply [] none, .deactivate "x".toList,
     .activate "y".toList, .deactivate "z".toList]).defaults = ["y".toList] := by decide
+
+/-! ## "including files in place" at EVERY depth (includes inside groups, includes inside included files) -/
+
+/-- In ANY parser state (any stack of open `#n` groups, any group and module table, inside an included
+file or an external module file), between any lines: loading a text is loading the text in which every
+include line has been replaced by its file's lines, those by theirs, … to any depth `d` — the same
+parser state comes out (open groups, closed groups, operations, `:`/`@`, modules) or the same error. -/
+theorem include_splice_all (env : Loader.Env) (d : Nat) (lines pre post : List Str) (st : Loader.PState)
+    (r : Except Loader.LErr Loader.PState) (hr : r ≠ .error .fuel) :
+    (∃ k, Loader.parse env k st (pre ++ lines ++ post) = r)
+      ↔ (∃ k, Loader.parse env k st (pre ++ Loader.spliceAll env d lines ++ post) = r) :=
+  Loader.L.spliceAll_parse env d lines pre post st r hr
+
+/-- the same for a whole module text: same module and module table, or same error. -/
+theorem include_splice_all_text (env : Loader.Env) (d : Nat) (lines : List Str)
+    (r : Except Loader.LErr (Loader.Module × List (Str × Loader.Module))) (hr : r ≠ .error .fuel) :
+    (∃ k, Loader.loadLines env k lines = r) ↔ (∃ k, Loader.loadLines env k (Loader.spliceAll env d lines) = r) :=
+  Loader.L.spliceAll_load env d lines r hr
+
+/-- once no followable include line is left, further splicing changes nothing. -/
+theorem splice_fixpoint (env : Loader.Env) (d : Nat) (lines : List Str) (h : Loader.includeFree env lines = true) :
+    Loader.spliceAll env d lines = lines := Loader.L.spliceAll_includeFree env d lines h
+
+/-- depth 2, inside a group: `#1 / <a / >1` with a = `!a→b / <b`, b = `!b→c / #` (b closes the group the
+main text opened): the spliced text, and the module it loads to. -/
+example :
+    let env : Loader.Env := ⟨fun n => if n = "a".toList then some ["!a\tb".toList, "<b".toList]
+      else if n = "b".toList then some ["!b\tc".toList, "#".toList] else none, true, []⟩
+    Loader.spliceAll env 2 ["#1".toList, "<a".toList, ">1".toList]
+        = ["#1".toList, "!a\tb".toList, "!b\tc".toList, "#".toList, ">1".toList]
+    ∧ Loader.includeFree env (Loader.spliceAll env 2 ["#1".toList, "<a".toList, ">1".toList]) = true
+    ∧ Loader.loadLines env 10 ["#1".toList, "<a".toList, ">1".toList]
+        = .ok (⟨[.call "1".toList], [("1".toList, [.rule ['a'] ['b'], .rule ['b'] ['c']])], none, none⟩, []) := by
+  refine ⟨by rfl, by rfl, by rfl⟩
+
+/-! ## the regex engine's match list (the parameter): what is assumed, and that no match is skipped -/
+
+/-- the executable check the driver evaluates on every match list the harness sends (`findIterOk`: ordered,
+inside the string, non-overlapping, groups inside their match, a match may start where the previous one
+ended, no two EMPTY matches at one position) implies the hypothesis `ValidMatches` of the theorems. -/
+theorem finditer_list_valid (s : Str) (ms : List M) (h : findIterOk s.length 0 false ms = true) : ValidMatches s ms :=
+  L.findIterOk_valid s.length ms 0 false h
+
+/-- every match of the list is replaced, none skipped — also an empty match that starts where the
+previous non-empty match ended: with a literal template `l` the output has `|s| - Σ widths + n·|l|`
+characters for a list of `n` matches. -/
+theorem every_match_replaced (s l : Str) (ms : List M) (h : ValidMatches s ms) :
+    (applyRule s ms [] [.lit l]).out.length + matchedLen ms = s.length + ms.length * l.length := by
+  rw [applyRule_string]
+  simpa using L.subst_lit_length s l ms 0 h (Nat.zero_le _)
+
+/-- `re.sub('a*', '-', 'baac') == '-b--c-'`: the list (0,0) (1,3) (3,3) (4,4) passes the check, has one
+empty match adjacent to the previous non-empty one, and the model rewrites all four. -/
+theorem empty_match_after_nonempty :
+    findIterOk 4 0 false [⟨0, 0, []⟩, ⟨1, 3, []⟩, ⟨3, 3, []⟩, ⟨4, 4, []⟩] = true
+    ∧ adjacentEmpty 0 [⟨0, 0, []⟩, ⟨1, 3, []⟩, ⟨3, 3, []⟩, ⟨4, 4, []⟩] = 1
+    ∧ (applyRule "baac".toList [⟨0, 0, []⟩, ⟨1, 3, []⟩, ⟨3, 3, []⟩, ⟨4, 4, []⟩] [] [.lit ['-']]).out = "-b--c-".toList
+    ∧ findIterOk 1 0 false [⟨0, 0, []⟩, ⟨0, 0, []⟩] = false
+    ∧ findIterOk 1 0 false [⟨0, 0, []⟩, ⟨0, 1, []⟩, ⟨1, 1, []⟩] = true := by decide
+
+/-! ## two REPP objects, one registry -/
+
+/-- two objects in one interleaved history of calls: each answers as if it were alone. -/
+theorem two_objects_independent {α} (run1 run2 : List Str → Str → Bool → α) (o1 o2 : Link.Obj) (cs : List (Bool × Link.Call)) :
+    ((Link.runCalls2 run1 run2 (o1, o2) cs).filter (fun x => !x.1)).map (·.2)
+        = Link.runCalls run1 o1 ((cs.filter (fun x => !x.1)).map (·.2))
+    ∧ ((Link.runCalls2 run1 run2 (o1, o2) cs).filter (fun x => x.1)).map (·.2)
+        = Link.runCalls run2 o2 ((cs.filter (fun x => x.1)).map (·.2)) :=
+  ⟨Link.L.runCalls2_fst run1 run2 cs o1 o2, Link.L.runCalls2_snd run1 run2 cs o1 o2⟩
+
+/-- building a second REPP from the SAME `modules` dict leaves the heap of module objects as the first
+constructor left it, so which external calls of the first object run under any active set is unchanged. -/
+theorem same_registry_independent (w : Link.World) (D : List (Str × Nat)) (A1 A2 : List Str) (calls active : List Str) :
+    let (w1, r1) := Link.construct w D A1
+    let (w2, _) := Link.construct w1 D A2
+    w2 = w1 ∧ Link.runningCalls w2 r1 calls active = Link.runningCalls w1 r1 calls active := by
+  simp only [Link.construct]
+  rw [Link.L.renameAll_idem]
+  exact ⟨rfl, rfl⟩
+
+/-- the hypothesis "same dict" is necessary (model of the code as it is): ONE module object registered
+as `x` in the first REPP and as `y` in a second one is renamed by the second constructor; the first
+object's call `>x` then no longer runs when `x` is active, and runs when `y` is. -/
+theorem shared_module_renamed :
+    let w0 : Link.World := fun _ => []
+    let (w1, r1) := Link.construct w0 [("x".toList, 0)] []
+    let (w2, _) := Link.construct w1 [("y".toList, 0)] []
+    Link.runningCalls w1 r1 ["x".toList] ["x".toList] = [0]
+    ∧ Link.runningCalls w2 r1 ["x".toList] ["x".toList] = []
+    ∧ Link.runningCalls w2 r1 ["x".toList] ["y".toList] = [0] := by decide
 
 /-! ## hypotheses are satisfiable / concrete instances (past failures as regression) -/
 
